@@ -1,10 +1,11 @@
 #!/venv/bin/python
 """Copy confirmed behaviour-preserving refactorings into /verif/benign/<ID>-<N>/ (patch.diff regenerated against /repo's HEAD, meta.json).
 
-usage: tools/archive_benign.py <benign_out dir> <confirm dir> <scratch worktree>
+usage: tools/archive_benign.py <benign_out dir> <confirm dir> <scratch worktree> [suffix]
 Kept only when the confirmation record says the patch applies and the 526-test baseline stays green with it."""
 import json, os, subprocess, sys
 src, conf, wt = sys.argv[1:4]
+suffix = sys.argv[4] if len(sys.argv) > 4 else ""
 ROOT = os.path.dirname(os.path.dirname(os.path.abspath(__file__)))
 head = subprocess.check_output(["git", "-C", "/repo", "rev-parse", "--short", "HEAD"], text=True).strip()
 def sh(c): return subprocess.run(c, shell=True, capture_output=True, text=True)
@@ -15,7 +16,7 @@ for f in sorted(os.listdir(conf)):
     sid = r["seed"]; pid, n = sid.split("/")
     if not (r.get("applies") and r.get("baseline_ok")):
         print("NOT KEPT", sid, r.get("applies"), r.get("baseline_ok")); skipped += 1; continue
-    d = os.path.join(ROOT, "benign", f"{pid}-{n}")
+    d = os.path.join(ROOT, "benign", f"{pid}-{n}{suffix}")
     os.makedirs(d, exist_ok=True)
     sh(f"git -C {wt} checkout -q --detach $(git -C /repo rev-parse HEAD); git -C {wt} reset -q --hard; git -C {wt} clean -fdq")
     if sh(f"git -C {wt} apply --3way {src}/{sid}/patch.diff").returncode != 0:
